@@ -153,6 +153,16 @@ def correspondence(ctx):
         "oracle vs extracted model, except: deep paths above 8192 bytes (the model's path cleaning is quadratic in the number of "
         "segments; one such case goes through the model in the thorough tier) and three 1 MiB cases are implementation vs "
         "oracle only; the cases.v tier (vm_compute) carries eight long-name cases up to 1024 bytes; "
+        "large-sets classes (large-sets-<form>): 1000, 1023, 1024, 1025, 1039, 2047 and 4099 queued artifacts (src/dir<i%37>/file<i>) "
+        "with ALLOW src/* ; DISALLOW * (all consumed), partial ALLOWs, DISALLOW *.key with exactly one secret.key (implementation "
+        "run 30 times, the verdict must be the same each time), CREATE / DELETE / MODIFY / MATCH * over all of them, default "
+        "GOMAXPROCS; each case run 3 times; implementation vs oracle for all, vs the extracted model for up to 1039 elements "
+        "(three forms per size, all forms at 1025; its list-based sets are quadratic) and up to 2047 in the thorough tier; "
+        "backslash-names classes (backslash-names-<form>): names containing backslashes (src\\evil.sh, a\\b, dist\\pkg, trailing, "
+        "double, before a glob character, before a class) are ordinary names different from their slash twins: escaped and "
+        "twin-directory patterns, REQUIRE of the name and of the twin, MATCH with the twin / the same name / a backslash "
+        "destination / a prefix, CREATE / DELETE / MODIFY between a name and its twin, both twins in one map; queue probes use "
+        "the escaped literal pattern of a name; "
         "rooted classes: absolute artifact paths with MATCH prefixes "
         "that clean to '/' ('/', '//', '/./', '/x/..'), absolute directories, '.', './', a prefix equal to a whole path, as source "
         "prefix, destination prefix and both. Rooted paths are excluded from the well-formed inputs of C03_model_eq_spec "
